@@ -449,7 +449,10 @@ prop(
           "48 records with empty chunks, spurious polls and far-ahead requests, plus shuttle schedules of request tasks against a feeder "
           "task; distinct by the full case tuple. waker identity: seeded histories on a pool executor where one task (one waker) "
           "owns several send / receive requests and pending futures are moved to another task (re-polled with a different waker); "
-          "at quiescence every future must have completed and the bytes must be in index order"),
+          "at quiescence every future must have completed and the bytes must be in index order. receive side: a fallible message "
+          "type (records starting with a marker byte are invalid encodings: they fail for their own request only) and byte streams "
+          "that report an upstream error and then keep producing (through the gateway's LogErrors adapter): nothing from behind "
+          "the gap may be handed out"),
     assumptions=[
         "messages have one fixed size per buffer and capacity/read size are multiples of it (the configuration the gateway uses); "
         "read size <= capacity",
@@ -473,7 +476,8 @@ prop(
               ("sh_executions", 50000), ("sh_recv_executions", 5000),
               ("recv_stream_shapes", 20), ("recv_overflow_registrations", 1000),
               ("recv_messages_straddling_chunks", 1000), ("recv_resolved_end_of_stream", 100),
-              ("identity_pending_futures_moved_to_another_waker", 1000), ("identity_task_polls_sharing_one_waker", 1000)],
+              ("identity_pending_futures_moved_to_another_waker", 1000), ("identity_task_polls_sharing_one_waker", 1000),
+              ("recv_resolved_invalid_record", 1000), ("upstream_error_records_refused_after_error", 1000)],
 )
 
 prop(
